@@ -716,6 +716,13 @@ impl Interface {
 
         let mut result = PollResult::None;
         for item in sockets.items_mut() {
+            // While the remaining fragments of a packet are waiting in the fragmenter, do not
+            // dequeue anything else: the next packet needing fragmentation would overwrite them.
+            #[cfg(feature = "_proto-fragmentation")]
+            if !self.fragmenter.is_empty() && !self.fragmenter.finished() {
+                break;
+            }
+
             if !item
                 .meta
                 .egress_permitted(self.inner.now, |ip_addr| self.inner.has_neighbor(&ip_addr))
@@ -1300,6 +1307,12 @@ impl InterfaceInner {
                                 "Fragmentation buffer is too small, at least {} needed. Dropping",
                                 total_ip_len
                             );
+                            return Ok(());
+                        }
+
+                        if !frag.is_empty() && !frag.finished() {
+                            // Never overwrite the fragments of a packet that is still being sent.
+                            net_debug!("Fragmentation buffer is in use. Dropping");
                             return Ok(());
                         }
 
